@@ -206,9 +206,18 @@ func checkQiAuthorisation(r *Runner, tx *types.Transaction, fail func(class, wit
 				return false
 			}
 			outs := append(types.TxOuts{}, q.TxOut...)
-			outs[0].Address = qiAccounts[15].Addr.Bytes()
-			q.TxOut = outs
-			return true
+			used := map[string]bool{}
+			for _, o := range outs {
+				used[string(o.Address)] = true
+			}
+			for _, a := range qiAccounts {
+				if !used[string(a.Addr.Bytes())] { // an address the transaction does not use yet
+					outs[0].Address = a.Addr.Bytes()
+					q.TxOut = outs
+					return true
+				}
+			}
+			return false
 		}},
 		{"drop-output", func(q *types.QiTx) bool {
 			if len(q.TxOut) < 2 {
